@@ -640,6 +640,7 @@ type streamObs struct {
 	cdata, sdata   string
 	tags           []string
 	conv           map[string]string
+	single         string // what View.Stream(id) of the SAME view shows for this id ("cdata|sdata", or the error)
 }
 
 func readView(v *manager.View, prefetch bool, convs []string) ([]streamObs, error) {
@@ -670,6 +671,28 @@ func readView(v *manager.View, prefetch bool, convs []string) ([]streamObs, erro
 		res = append(res, o)
 		return nil
 	}, opts...)
+	// the same view asked for every listed stream by id
+	for i := range res {
+		sc, serr := v.Stream(res[i].id)
+		if serr != nil || sc.Stream() == nil {
+			res[i].single = fmt.Sprintf("error: %v", serr)
+			continue
+		}
+		data, derr := sc.Stream().Data()
+		if derr != nil {
+			res[i].single = fmt.Sprintf("error: %v", derr)
+			continue
+		}
+		c, sd := "", ""
+		for _, d := range data {
+			if d.Direction == index.DirectionClientToServer {
+				c += string(d.Content)
+			} else {
+				sd += string(d.Content)
+			}
+		}
+		res[i].single = c + "|" + sd
+	}
 	sort.Slice(res, func(i, j int) bool { return res[i].id < res[j].id })
 	return res, err
 }
@@ -706,6 +729,9 @@ func (h *harness) checkOracles(st manager.VerifState) {
 			h.complain("C10", "stream id %d listed twice in a fresh view", o.id)
 		}
 		seenID[o.id] = true
+		if o.single != o.cdata+"|"+o.sdata {
+			h.complain("C10", "a fresh view shows stream %d as %q when asked by id and as %q when listing all streams (not the newest version under one of them)", o.id, o.single, o.cdata+"|"+o.sdata)
+		}
 		f := flowOfPort(o.cport)
 		ft := truth[f]
 		if ft == nil || o.sport != ft.sport || o.cport != ft.cport {
